@@ -321,6 +321,97 @@ def corr_rotator(seed, tier):
     return R
 
 
+# ----------------------------------------------------------------------------------------------------- Whitener / PCA
+def corr_whitener(seed, tier):
+    """preprocessing.Whitener (fit, transform, inverse_transform_data, transform_components, inverse_transform_components) and
+    preprocessing.PCA (the four maps) against XM.whitenFit / whitenTransform / … and XM.pcaTransform / …: the model receives the
+    decomposition of the covariance that `_fractional_matrix_power` obtained (spy on its `_SVD`), decides the retained directions
+    with the generated cut-off rule and must reproduce the covariance handed to the solver, T, Tinv and all four maps; cases
+    include collinear features (rank-deficient covariance) and alpha in {0, .25, .5, .75, random}."""
+    import xeofs.linalg._numpy._utils as U_
+    from xeofs.preprocessing.whitener import Whitener
+    from xeofs.preprocessing.pca import PCA
+
+    R = Result("whitener")
+    rng = np.random.default_rng(13000 + seed)
+    reqs, exps = [], []
+    for i in range({"quick": 12, "thorough": 100, "search": 40}[tier]):
+        n, p = int(rng.integers(10, 40)), int(rng.integers(2, 7))
+        alpha = float(rng.choice([0.0, 0.25, 0.5, 0.75, float(rng.uniform(0, 0.99))]))
+        D = rng.normal(size=(n, p)) @ np.diag(10.0 ** rng.uniform(-2, 2, size=p)) @ rng.normal(size=(p, p))
+        kind = "full-rank"
+        if i % 4 == 3 and p >= 3:
+            D[:, -1] = D[:, 0] - 0.5 * D[:, 1]
+            kind = "collinear"
+        D = D - D.mean(axis=0)
+        X = xr.DataArray(D, dims=("sample", "feature"), coords={"sample": np.arange(n), "feature": np.arange(p)})
+        R.tally("covariance", kind)
+        R.tally("alpha", round(alpha, 2))
+        rec = {}
+        orig = U_._SVD.fit_transform
+
+        def spy(this, C):
+            out = orig(this, C)
+            rec["C"], rec["s"], rec["V"] = np.array(C), np.array(out[1]), np.array(out[2])
+            return out
+
+        U_._SVD.fit_transform = spy
+        try:
+            w = Whitener(alpha=alpha).fit(X)
+        finally:
+            U_._SVD.fit_transform = orig
+        k, m = int(rng.integers(1, 4)), int(rng.integers(1, 5))
+        Pm = rng.normal(size=(p, k))
+        P = xr.DataArray(Pm, dims=("feature", "mode"), coords={"feature": np.arange(p), "mode": np.arange(1, k + 1)})
+        Xn = xr.DataArray(rng.normal(size=(m, p)) * np.abs(D).max(), dims=("sample", "feature"), coords={"sample": np.arange(m), "feature": np.arange(p)})
+        Z = w.transform(Xn)
+        exp = {"cov": rec["C"], "T": w.T.transpose("feature", "mode").values, "Tinv": w.Tinv.transpose("mode", "feature").values,
+               "transform": Z.transpose("sample", "feature").values, "inverse": w.inverse_transform_data(Z).transpose("sample", "feature").values,
+               "tcomps": w.transform_components(P).transpose("feature", "mode").values,
+               "icomps": w.inverse_transform_components(P).transpose("feature", "mode").values}
+        req = {"fn": "whitener", "n": n, "p": p, "k": k, "m": m, "X": bits(D), "V": bits(rec["V"]), "s": bits(rec["s"]), "alpha": f2b(alpha),
+               "P": bits(Pm), "Xn": bits(Xn.values)}
+        reqs.append(req)
+        exps.append((req, exp, (p, k, m), kind))
+    for (req, exp, (p, k, m), kind), ans in zip(exps, ask(reqs)):
+        small = {kk: req[kk] for kk in ("n", "p", "k", "m")}
+        small.update(alpha=b2f(req["alpha"]), seed=seed, covariance=kind)
+        scale = {"T": 1e-7, "Tinv": 1e-7}
+        for key, shp in {"cov": (p, p), "T": (p, p), "Tinv": (p, p), "transform": (m, p), "inverse": (m, p), "tcomps": (p, k), "icomps": (p, k)}.items():
+            got = unbits(ans[key], shp)
+            R.cmp(key, close(got, np.asarray(exp[key], dtype=float), 1e-7), small, got.ravel()[:6].tolist(), np.asarray(exp[key]).ravel()[:6].tolist())
+    # PCA maps
+    reqs, exps = [], []
+    for i in range({"quick": 8, "thorough": 60, "search": 30}[tier]):
+        n, p = int(rng.integers(12, 40)), int(rng.integers(3, 8))
+        D = rng.normal(size=(n, p)) @ rng.normal(size=(p, p))
+        D = D - D.mean(axis=0)
+        X = xr.DataArray(D, dims=("sample", "feature"), coords={"sample": np.arange(n), "feature": np.arange(p)})
+        k = int(rng.integers(1, p + 1))
+        pca = PCA(n_modes=k, init_rank_reduction=1.0, random_state=1, compute_eagerly=True)
+        pca.solver = "full" if hasattr(pca, "solver") else None
+        pca.fit(X)
+        V = pca.V.transpose("feature", "mode").values
+        m, r = int(rng.integers(1, 5)), int(rng.integers(1, 4))
+        Xn = xr.DataArray(rng.normal(size=(m, p)), dims=("sample", "feature"), coords={"sample": np.arange(m), "feature": np.arange(p)})
+        Pm = rng.normal(size=(p, r))
+        P = xr.DataArray(Pm, dims=("feature", "mode"), coords={"feature": np.arange(p), "mode": np.arange(1, r + 1)})
+        Z = pca.transform(Xn)
+        Q = pca.transform_components(P)
+        exp = {"transform": Z.transpose("sample", "feature").values, "inverse": pca.inverse_transform_data(Z).transpose("sample", "feature").values,
+               "tcomps": Q.transpose("feature", "mode").values, "icomps": pca.inverse_transform_components(Q).transpose("feature", "mode").values}
+        req = {"fn": "pca", "p": p, "k": int(V.shape[1]), "m": m, "r": r, "V": bits(V), "Xn": bits(Xn.values), "P": bits(Pm)}
+        reqs.append(req)
+        exps.append((req, exp, (p, int(V.shape[1]), m, r)))
+        R.tally("pca_k_over_p", "full" if V.shape[1] == p else "truncated")
+    for (req, exp, (p, k, m, r)), ans in zip(exps, ask(reqs)):
+        small = {kk: req[kk] for kk in ("p", "k", "m", "r")}
+        for key, shp in {"transform": (m, k), "inverse": (m, p), "tcomps": (k, r), "icomps": (p, r)}.items():
+            got = unbits(ans[key], shp)
+            R.cmp("pca_" + key, close(got, np.asarray(exp[key], dtype=float), 1e-9), small, got.ravel()[:6].tolist(), np.asarray(exp[key]).ravel()[:6].tolist())
+    return R
+
+
 # ----------------------------------------------------------------------------------------------------- Scaler
 def corr_scaler(seed, tier):
     """preprocessing.Scaler.fit/transform/inverse_transform_data on (sample, feature) arrays against XM.scalerTransform /
@@ -1025,6 +1116,7 @@ CORR = {
     "eof_pipeline": corr_eof_pipeline,
     "cpcca_core": corr_cpcca_core,
     "rotator": corr_rotator,
+    "whitener": corr_whitener,
     "scaler": corr_scaler,
     "threshold": corr_threshold,
     "validators": corr_validators,
@@ -1047,14 +1139,14 @@ BY_PROP = {
     "C06": ["sanitizer", "frame"],
     "C07": ["frame"],
     "C08": ["scaler", "eof_pipeline"],
-    "C09": ["cpcca_core", "formulas"],
-    "C10": ["cpcca_core", "formulas"],
+    "C09": ["cpcca_core", "whitener", "formulas"],
+    "C10": ["cpcca_core", "whitener", "formulas"],
     "C11": ["rotator", "formulas"],
     "C12": ["lazy"],
     "C13": ["codec"],
     "C14": ["history"],
     "C15": ["threshold", "validators", "sign_rule"],
-    "C16": ["formulas", "validators"],
+    "C16": ["whitener", "formulas", "validators"],
     "C17": ["validators", "sanitizer"],
     "C18": ["formulas"],
     "C19": ["formulas"],
